@@ -35,10 +35,12 @@ CHECKS = {
     "C24": ("hypothesis PBT against a simulated node: node's minimal-fee rule recomputed on the signed bytes",
             "Batches of 1..6 manager operations of every kind, sources of the four curves, node counters to 2^64, generated "
             "simulation results; fill() and autofill() then sign(); the signed bytes are decoded by the reference operation codec "
-            "and sum(fee)*1000 >= 100000 + 1000*size + 100*sum(gas_limit) is checked in exact integer nanotez.",
+            "and sum(fee)*1000 >= 100000 + 1000*size + 100*sum(gas_limit) is checked in exact integer nanotez. Batches up to 50 "
+            "(homogeneous ones included), caller-given reserves, and a tier steered to the 16383/16384 fee-field boundary.",
             "The node is simulated (vlib/fake_node.py); the rule is the Octez default mempool filter.", "9/C24"),
     "C25": ("hypothesis-generated client call histories against a simulated node with evolving counter and mempool",
-            "Episodes build -> fill/autofill (repeated, failed simulations) -> sign -> inject (refusals, retries) / send, with bakes "
+            "Episodes build (plain, from a contract interface pinned to a past block, or via client.bulk of pre-filled groups) -> "
+            "fill/autofill (repeated, failed simulations, closed mempool endpoint) -> sign -> inject (refusals, retries) / send, with bakes "
             "and foreign injections in between; at every injection the payload is decoded by the reference codec and its counters "
             "must be counter-on-node + own pending operations + 1...",
             "One group at a time (the discipline the API documents); explicit counter= overrides are not generated. The node is "
@@ -70,18 +72,19 @@ CHECKS = {
     "C13": ("exhaustive small or-trees x annotation placements + hypothesis-sampled deeper trees vs reference entrypoint table",
             "Every or-tree shape with <=4 leaves and every annotation placement over a name pool, plus sampled deeper "
             "trees: list_entrypoints == reference table, duplicates rejected, to_parameters/from_parameters mutual "
-            "inverses for every leaf path and every listed entrypoint.",
+            "inverses for every leaf path and every listed entrypoint (leaves include options, big_map literals, empty collections; "
+            "names up to 31 characters); the (entrypoint, argument) pair itself comes back when it is the most specific one.",
             "Reference entrypoint rules validated against the 20 recorded node answers in tests/contract_tests/*/"
             "__entrypoints__.json. Several (entrypoint, argument) answers can be right: validity predicate.", "9/C13"),
     "C14": ("hypothesis rule-based state machine vs Python dict/set model with reference order",
             "Histories of UPDATE / GET_AND_UPDATE / MEM / GET / SIZE / MAP / ITER / literal construction over sets and "
-            "maps with leaf and composite key types: after every step the collection is strictly increasing in the "
-            "reference order and equals the model.",
+            "maps with leaf and composite key types (keys as literals or DUP copies), construction from Python objects: after every "
+            "step the collection is strictly increasing in the reference order and equals the model.",
             "Reference order shared with C03.", "9/C14"),
     "C15": ("hypothesis-generated operation histories through run_code against a fake node vs layered dict model",
             "Histories of big_map GET/MEM/UPDATE/GET_AND_UPDATE across chains of calls with on-chain content served by "
             "an in-memory node: observations and the lazy diff applied as a mapping equal the model; key hashes "
-            "recomputed independently.",
+            "recomputed independently. Second tier: two big maps in one storage and copies obtained by DUP of the enclosing value.",
             "The node is simulated (vlib/fake_node.py subclassing RpcNode); the script-expression hash uses the "
             "reference legacy PACK validated on recorded key hashes.", "9/C15"),
     "C20": ("hypothesis PBT of ticket programs, step-wise differential vs reference ticket semantics + conservation invariants",
@@ -90,7 +93,8 @@ CHECKS = {
             "amount per (ticketer, contents) conserved, DUP of ticket-bearing values fails, results typed ticket T.",
             "Reference ticket rules from the Lima changelog / Michelson reference. A second, reference-free tier runs arbitrary "
             "generated ticket programs (big maps of tickets, lambdas, options) and judges only the conservation invariant over "
-            "the whole final state.", "9/C20"),
+            "the whole final state; it may start from a big_map of tickets living on a simulated node, forged ticket literals are tried, "
+            "and every short history of take-out / put-back on such a map is enumerated.", "9/C20"),
     "C31": ("hypothesis PBT, exhaustive over list length; differential vs independent Merkle reference",
             "Every list length in the tier's range is enumerated; leaves, list-of-lists, predecessor and round are "
             "hypothesis-generated; the result is compared with an independent Merkle/base58 implementation. "
@@ -173,13 +177,15 @@ CHECKS = {
     "C07": ("hypothesis PBT with independent verifiers (cryptography, py_ecc pairing) and single-bit alterations",
             "Keys of four curves x messages (bytes, hex strings) x alterations (message bit, signature bit/byte with "
             "valid checksum, other key, other curve, generic/specific prefix): own signature verifies, independent "
-            "verifier accepts, altered triples rejected with ValueError, CHECK_SIGNATURE agrees.",
+            "verifier accepts, altered triples (incl. one bit of the encoded public key, the signature bytes under another curve's prefix; "
+            "judged before or after the genuine triple) rejected, CHECK_SIGNATURE agrees; hex-text messages in any letter case.",
             "BLS reference uses py_ecc primitives (same library as pytezos, different entry points): semi-independent. "
             "BLS cases are few (about 1 s each).", "9/C07"),
     "C08": ("hypothesis PBT with independent key derivation, address hashing, BIP-39 checksum and PBKDF2 seed",
             "Public keys vs cryptography/py_ecc derivation, pkh vs own base58+blake2b and HASH_KEY, plain/encrypted "
             "export-import (seed and 64-byte Ed25519 forms), wrong passphrase rejected, validate_mnemonic iff own "
-            "BIP-39 checksum, from_mnemonic deterministic and equal to an independent PBKDF2 derivation.",
+            "BIP-39 checksum, from_mnemonic deterministic and equal to an independent PBKDF2 derivation, the wallet-file route "
+            "(from_faucet) under the same acceptance rule.",
             "Wordlist data comes from the `mnemonic` package. A BIP-39 seed that is not a valid scalar of the curve "
             "(common for BLS) may be refused; only determinism is required there.", "9/C08"),
     "C23": ("hypothesis PBT with independent signature verification over watermark || reference-encoded bytes",
@@ -190,7 +196,9 @@ CHECKS = {
     "C03": ("hypothesis PBT, differential vs reference total order + order axioms + collection literals/UPDATE",
             "Comparable types to depth 2/3 with near-by value pairs/triples: COMPARE sign vs reference order, "
             "antisymmetry, reflexivity, transitivity; sorted set/map/big_map literals accepted and kept, UPDATE-built sets "
-            "sorted, unsorted/duplicate literals rejected; signatures in every base58 spelling, same-curve key pairs.",
+            "sorted, unsorted/duplicate literals rejected; signatures in every base58 spelling, same-curve key pairs; the same literals "
+            "re-read as plain strings in the same process; sets / maps / big maps built from Python objects (any order, one element in two "
+            "spellings).",
             "Reference order written from script_comparable / Signature / Destination compare; three sub-cases are "
             "left unconstrained in direction (P-256 keys of different parity, signatures of different length).", "9/C03"),
     "C04": ("hypothesis PBT differential vs reference PACK + byte mutations + atheris campaign on UNPACK",
